@@ -97,8 +97,7 @@ PROPS = {
               "every index and unwrap() is proved safe; CurveAffine::into_compressed / into_uncompressed (trait defaults written out at G1Affine / G2Affine) return the same byte strings. Proved lemmas over enc_* and the decoding functions dec_* that the real decoders are proved equal to (unit codec, C04): "
               "dec(enc(P)) == Ok(P) for every affine point with reduced coordinates (identity -> canonical identity; compressed: P on the curve), and "
               "dec(b) == Ok(P) ==> enc(P) == b for every byte string of the right length (the encoding is the only accepted preimage; hence enc is injective).",
-        not_covered=["the AsRef / AsMut<[u8]> accessors of the encoding newtypes (`&self.0`) are not under contract",
-                     "projective inputs reach the encoders through into_affine (C01 scope)",
+        not_covered=["projective inputs reach the encoders through into_affine (C01 scope)",
                      "get_point_from_x enters through the contract proved in unit recover (thorough tier), restated as ax_gpfx1/2 with a textual link check"],
         assumptions=["D1w PrimeFieldRepr::write_be into a &mut [u8] cursor writes the 48 big-endian bytes at the front and advances (proved on the compiled code: kani:limbs harness write_be_cursor, C08)",
                      "Fq::into_repr returns the canonical integer (proved in unit mont, C08)", "Fq ordering is the canonical integer order (derive, C08); Fq2 ordering proved in unit order (C18)",
